@@ -507,6 +507,8 @@ func scenariosC08() []scenario {
 		// PENDING (period 3 s) before it joins again (after 4.25 s; the two timers never fall due together): the inherited tokens stay
 		{name: "restart-from-joining", seed: joiningSeed, lcs: []lcSpec{{id: "a", joinAfter: 4250 * time.Millisecond, heartbeat: 3 * time.Second}, {id: "b"}}, actions: []action{{at: 8 * time.Second, kind: "ready", who: "a"}}, horizon: 10 * time.Second},
 		{name: "basic-autoforget", seed: nil, lcs: []lcSpec{{id: "a", basic: true, autoForget: 8 * time.Second}, {id: "b", basic: true}}, actions: []action{{at: 2 * time.Second, kind: "stop", who: "b"}}, horizon: 22 * time.Second},
+		// auto-forget looks at heartbeat age only: a member that is JOINING (observing its tokens) with fresh heartbeats stays
+		{name: "autoforget-vs-joining", lcs: []lcSpec{{id: "a", basic: true, autoForget: 8 * time.Second, heartbeat: 2 * time.Second}, {id: "b", joinAfter: 1500 * time.Millisecond, observe: 3 * time.Second, heartbeat: 5250 * time.Millisecond}}, horizon: 9 * time.Second}, // b's heartbeat off the half-second grid: its observe timer (join commit + 3 s) can never fall due together with a tick
 		{name: "mixed", lcs: []lcSpec{{id: "a", joinAfter: 1500 * time.Millisecond}, {id: "b", basic: true}}, horizon: 14 * time.Second},
 		{name: "three-joiners", lcs: []lcSpec{{id: "a", joinAfter: 1500 * time.Millisecond}, {id: "b", joinAfter: 1500 * time.Millisecond}, {id: "c", basic: true}}, horizon: 9 * time.Second},
 		{name: "no-heartbeat", lcs: []lcSpec{{id: "a", joinAfter: 1500 * time.Millisecond}, {id: "b", basic: true, noHeartbeat: true}}, actions: []action{{at: 6 * time.Second, kind: "stop", who: "b"}}, horizon: 12 * time.Second},
